@@ -21,7 +21,8 @@ SourceKinds == {"src", "timer", "fb"}
 \* indexes (into ins) of the inputs whose tick activates the node
 ActiveIns(n) ==
     CASE n.kind \in SourceKinds -> {}
-      [] n.kind \in {"sample", "sample2", "sampleu"} -> {1}    \* sample2 / sampleu: sum2 / sumu with a passive second input
+      [] n.kind \in {"sample", "sample2", "sampleu", "elem0"} -> {1}
+      [] n.kind = "elem1"       -> {2}       \* elem0 / elem1: element 0 / 1 of a list output packed from two inputs    \* sample2 / sampleu: sum2 / sumu with a passive second input
       [] n.kind \in {"sum2", "sumu", "keymix", "lsum", "lsumv"} -> {1, 2}
       [] OTHER                  -> {1}
 
@@ -29,6 +30,8 @@ ActiveIns(n) ==
 ValidIns(n) ==
     CASE n.kind \in SourceKinds -> {}
       [] n.kind \in {"sumu", "sampleu"} -> {1}
+      [] n.kind = "elem0"       -> {1}
+      [] n.kind = "elem1"       -> {2}
       [] n.kind = "lsumv"       -> {}        \* a list input is valid as soon as one element is
       [] n.kind \in {"sum2", "sample", "sample2", "keymix", "lsum"} -> {1, 2}   \* lsum: all-valid list input
       [] OTHER                  -> {1}
@@ -51,6 +54,8 @@ F(n, iv, iok, s) ==
       [] n.kind = "lsumv" -> [w |-> TRUE, v |-> (IF iok[1] THEN iv[1] ELSE 0) + (IF iok[2] THEN iv[2] ELSE 0), s |-> s]
       [] n.kind \in {"sumu", "sampleu"} -> [w |-> TRUE, v |-> iv[1] + (IF iok[2] THEN iv[2] ELSE 0), s |-> s]
       [] n.kind = "sample" -> [w |-> TRUE, v |-> iv[2], s |-> s]
+      [] n.kind = "elem0"  -> [w |-> TRUE, v |-> iv[1], s |-> s]
+      [] n.kind = "elem1"  -> [w |-> TRUE, v |-> iv[2], s |-> s]
       [] n.kind = "keymix" -> [w |-> TRUE, v |-> iv[1] * 100 + iv[2], s |-> s]   \* (key, x) inside a mapped child
       [] n.kind = "acc"    -> [w |-> TRUE, v |-> s + iv[1], s |-> s + iv[1]]
       [] n.kind = "count"  -> [w |-> TRUE, v |-> s + 1, s |-> s + 1]
